@@ -289,7 +289,7 @@ def one_run(ctx, sub, tpl, invert, strategy, flags, wit, tag):
 
 def run(ctx):
     install()
-    RC.RUN_TIMEOUT_S[0] = 10 if ctx.quick else 300
+    RC.RUN_TIMEOUT_S[0] = 10 if ctx.quick else 45
     rng = ctx.rng
     rx = RC.rxns()
     admissible = [x for x in rx if RC.flags_for(x["mode"])]
